@@ -404,6 +404,7 @@ func c19Run(c *fw.Ctx) {
 			c.Share(8, func() { exploreSched(c, sc) })
 		}
 	}
+	c.Share(8, func() { exploreSched(c, c19HubFullScenario(c)) })
 	specs := c19Specs()
 	for i, sp := range specs {
 		if sp.ID == "G5-both-two-sessions" && !c.Thorough() {
@@ -423,6 +424,10 @@ func c19Replay(c *fw.Ctx, raw json.RawMessage) {
 			replaySched(c, sc, raw)
 			return
 		}
+	}
+	if sc := c19HubFullScenario(c); sc.ID == cas.Scenario {
+		replaySched(c, sc, raw)
+		return
 	}
 	for _, sp := range c19Specs() {
 		if sp.ID == cas.Scenario {
